@@ -12,8 +12,16 @@ def main():
     elif isinstance(spec.get("order"), dict):
         table = spec["order"]
         sub.ORDER["perm"] = lambda d, names: order_from_table(table, d, names)
+    audit = opens = None
+    if spec.get("audit_prefix"):
+        sub.install_audit()
+        sub.AUDIT.update(on=True, events=[], opens=[], prefix=spec["audit_prefix"])
     r = sub.run_inproc(spec["cmd"], spec["args"], now=spec["now"], step=spec.get("step", 0.0))
-    sys.stdout.write("\n@@RES@@" + json.dumps({"exit": r.exit, "out": r.out, "err": r.err, "exc": r.exc, "tb": r.tb}))
+    if spec.get("audit_prefix"):
+        sub.AUDIT["on"] = False
+        audit, opens = sub.AUDIT["events"], sub.AUDIT["opens"]
+    sys.stdout.write("\n@@RES@@" + json.dumps({"exit": r.exit, "out": r.out, "err": r.err, "exc": r.exc, "tb": r.tb,
+                                               "audit": audit, "opens": opens}))
 
 
 def order_from_table(table, d, names):
